@@ -80,4 +80,20 @@ func (*defaultWriter).Write
   uses replacementFacts
   modifies util.entityTable
   loop 0 inv 0 <= n && 0 <= i && i <= limit && limit == len(source)
+
+// node renderers that can emit raw bytes do so only in unsafe mode
+func (*Renderer).renderHTMLBlock
+  requires rawAllowed() <==> r.Unsafe
+func (*Renderer).renderRawHTML
+  requires rawAllowed() <==> r.Unsafe
+// String nodes flagged "code" are written as is: their value comes from extension configuration (typographer
+// substitutions), not from the source, and is required to be inert
+func (*Renderer).renderString
+  requires (typeis(node, "*ast.String") && ast.strIsCode(ifptr(node, "*ast.String").flags)) ==> (rawAllowed() || util.inert(ifptr(node, "*ast.String").Value))
+// attribute names are written verbatim: the tree is required to carry only inert names (the attribute parser
+// accepts [A-Za-z_:][A-Za-z0-9_.:-]* only; that postcondition is not verified here)
+func RenderAttributes
+  requires node != nil
+  requires forall k int :: 0 <= k && k < len(ast.bn(node).attributes) ==> util.inert(ast.bn(node).attributes[k].Name)
+  modifies nothing
 @*/
